@@ -313,12 +313,17 @@ func (ns *namesys) Publish(ctx context.Context, name ci.PrivKey, value path.Path
 
 	ipnsName := ipns.NameFromPeer(pid)
 	cacheKey := ipnsName.String()
+	// The resolver looks names up under "/ipns/<name>"; keep that entry in
+	// step as well, otherwise a value resolved (and cached) earlier would
+	// outlive this publish.
+	resolveKey := ipnsName.AsPath().String()
 
 	span.SetAttributes(attribute.String("ID", pid.String()))
 	if err := ns.ipnsPublisher.Publish(ctx, name, value, options...); err != nil {
 		// Invalidate the cache. Publishing may _partially_ succeed but
 		// still return an error.
 		ns.cacheInvalidate(cacheKey)
+		ns.cacheInvalidate(resolveKey)
 		span.RecordError(err)
 		return err
 	}
@@ -331,6 +336,7 @@ func (ns *namesys) Publish(ctx context.Context, name ci.PrivKey, value path.Path
 		ttl = ttEOL
 	}
 	ns.cacheSet(cacheKey, value, ttl, time.Now())
+	ns.cacheSet(resolveKey, value, ttl, time.Now())
 	return nil
 }
 
